@@ -15,10 +15,35 @@ import (
 // ExtractWalk extracts the Walk function of the ctx package.
 func ExtractWalk(c *Ctx, name string) (*Sibling, error) {
 	fd := load.FuncDecl(c.Pkg, "", "Walk")
+	var frame *ast.FuncDecl
+	if fd != nil && fd.Body != nil {
+		if _, sw, _ := findTypeSwitch(fd); sw == nil {
+			// the children may be walked by a helper that Walk hands (child visitor, node) to
+			ast.Inspect(fd.Body, func(n ast.Node) bool {
+				call, ok := n.(*ast.CallExpr)
+				if !ok || len(call.Args) != 2 || frame != nil {
+					return true
+				}
+				fn := c.Callee(call)
+				if fn == nil || fn.Pkg() != c.Pkg.Types {
+					return true
+				}
+				for _, d := range load.AllFuncDecls(c.Pkg) {
+					if c.Info.Defs[d.Name] == types.Object(fn) && d.Body != nil && d.Recv == nil {
+						if _, sw2, _ := findTypeSwitch(d); sw2 != nil {
+							frame, fd = fd, d
+						}
+					}
+				}
+				return true
+			})
+		}
+	}
 	s, err := newSibling(c, name, fd)
 	if err != nil {
 		return nil, err
 	}
+	s.Frame = frame
 	pkgPath := c.Pkg.PkgPath
 	helpers := map[*types.Func]bool{}
 	for _, f := range load.AllFuncDecls(c.Pkg) {
